@@ -74,6 +74,7 @@ func (g *gen) execCall(instr ssa.Instruction, c *ssa.CallCommon, v ssa.Value, st
 		args[i] = g.val(st, a)
 	}
 	g.siteAsserts(instr, c, st)
+	g.countCall(c, st)
 	sig := c.Signature()
 	callee := c.StaticCallee()
 	var bindings []ssa.Value
@@ -1040,6 +1041,11 @@ func (g *gen) summaryCall(instr ssa.Instruction, callee *ssa.Function, st *state
 
 // callEffects: syntactic effect summary of a call, for loop havoc.
 func (g *gen) callEffects(c *ssa.CallCommon, ef *effects) {
+	if len(g.counted) > 0 {
+		if n := calledName(c); g.counted[n] {
+			ef.strong["GHOST.calls."+n] = true
+		}
+	}
 	if b, ok := c.Value.(*ssa.Builtin); ok {
 		switch b.Name() {
 		case "append":
